@@ -1,7 +1,6 @@
 package airgapped
 
 import (
-	"crypto/sha256"
 	"encoding/json"
 	"fmt"
 
@@ -97,13 +96,12 @@ func (am *Machine) handleStateDkgCommitsAwaitConfirmations(o *client.Operation) 
 		return fmt.Errorf("dkg instance %s already exists", o.DKGIdentifier)
 	}
 
-	// Here we create a new seeded suite for the new DKG round with seed =
-	// sha256.Sum256(baseSeed + DKGIdentifier). We need this to avoid identical
-	// DKG rounds.
-	var (
-		dkgSeed = sha256.Sum256(append([]byte(o.DKGIdentifier), am.baseSeed...))
-		suite   = bls.NewBLS12381Suite(dkgSeed[:])
-	)
+	// The suite's random stream is where the Schnorr nonces of the round's deals and responses
+	// come from (the polynomial comes from the reader given to InitDKGInstance). It must not be
+	// seeded: a stream seeded with sha256.Sum256(DKGIdentifier + baseSeed) is walked again from
+	// its start by every replay of the operations log and by a round started again, so the same
+	// nonces sign other messages and the long-term key can be computed from two result files.
+	suite := bls.NewBLS12381Suite(nil)
 	dkgInstance := dkg.Init(suite, am.pubKey, am.secKey)
 	dkgInstance.Threshold = payload[0].Threshold //same for everyone
 	dkgInstance.N = len(payload)
